@@ -278,7 +278,17 @@ pub fn select_once(case: &Value, container: &str, rng: &mut SmallRng) -> Value {
                 // `k_real`: a tournament larger than the population stands for ANY larger size
                 let k = case.get("k_real").map_or(u(&case["k"]), u) as usize;
                 let n = pop.len();
-                let t = Tournament::new(NonZeroUsize::new(k).expect("k >= 1"));
+                // the three ways of building a tournament of size k rotate
+                let t = match (k, rng.random_range(0..2u32)) {
+                    (1, 0) => Tournament::of_size::<1>(),
+                    (2, 0) => Tournament::binary(),
+                    (2, _) if n % 2 == 0 => Tournament::of_size::<2>(),
+                    (3, 0) => Tournament::of_size::<3>(),
+                    (4, 0) => Tournament::of_size::<4>(),
+                    (5, 0) => Tournament::of_size::<5>(),
+                    (6, 0) => Tournament::of_size::<6>(),
+                    _ => Tournament::new(NonZeroUsize::new(k).expect("k >= 1")),
+                };
                 on_slice!(t, |e| tsize_err(&e, k, n))
             }
             "lexicase" => {
